@@ -189,8 +189,35 @@ CompareRangeCase(p, q, op) ==
       out |-> IF ok THEN "ok" ELSE "TypeError", rk |-> "bool", val |-> IF ok THEN B2(Holds(op, s, t)) ELSE <<>>, post |-> s, ypost |-> t, fresh |-> FALSE]
 
 -----------------------------------------------------------------------------
+(* derive, operate, re-read everything: "operands are never corrupted, results never alias" over   *)
+(* histories of two or three operations.  y is made from x (a plain slice, x + empty, x * 1,       *)
+(* tuple(x), list(x)); then z = y OP e1 and z2 = y OP e2; afterwards x, y, z and z2 are read again:   *)
+(* x and y are what they were, z is still what it was when it was made.  (A slice of an immutable    *)
+(* sequence may share storage with its parent; an operation on the slice must not write into it.)    *)
+Derivs == {"slice", "addempty", "mul1", "tuple", "list"}
+ThenOps == {"concat", "repeat", "iadd", "slice"}
+DeriveType(k, d) == CASE d = "tuple" -> "tuple" [] d = "list" -> "list" [] OTHER -> PyType(k)
+DeriveOk(k, d, op) ==
+  /\ d \in {"addempty", "mul1"} => PyType(k) # "range"
+  /\ d \in {"tuple", "list"} => PyType(k) # "str"                 \* keeps the items integers
+  /\ op \in {"concat", "repeat", "iadd"} => DeriveType(k, d) # "range"
+  /\ op = "iadd" => DeriveType(k, d) # "list"                      \* in-place growth of lists is C17's
+Extra1(t) == IF t = "str" \/ t = "bytes" THEN <<120>> ELSE <<50>>
+Extra2(t) == IF t = "str" \/ t = "bytes" THEN <<121, 122>> ELSE <<51, 52>>
+DeriveCase(k, n, d, a, b, op) ==
+  LET x == Content(k, n)
+      yt == DeriveType(k, d)
+      y == IF d = "slice" THEN SubSeq(x, a + 1, b) ELSE x
+      then(e) == CASE op = "concat" -> ConcatD(y, e) [] op = "iadd" -> ConcatD(y, e)
+                   [] op = "repeat" -> RepeatD(y, 2) [] op = "slice" -> GetSliceD(y, 0, 1, NoneV)
+  IN Base("Derive", k, n) @@
+     [d |-> d, a |-> a, b |-> b, dt |-> yt, then |-> op, e1 |-> Extra1(yt), e2 |-> Extra2(yt),
+      cls |-> "derive=" \o d \o ",then=" \o op, out |-> "ok", rk |-> yt,
+      yv |-> y, z |-> then(Extra1(yt)), z2 |-> then(Extra2(yt)), val |-> <<>>, post |-> x, fresh |-> FALSE]
+
+-----------------------------------------------------------------------------
 (* enumeration: one root per (group, kind, length); each root expands to its cases in one step    *)
-Groups == {"read", "setslice", "delslice", "item", "concat", "contains", "compare"}
+Groups == {"read", "setslice", "delslice", "item", "concat", "contains", "compare", "derive"}
 BadTriples == {<<BadV, NoneV, NoneV>>, <<NoneV, BadV, NoneV>>, <<NoneV, NoneV, BadV>>, <<1, BadV, 2>>}
 Triples == (Comp \X Comp \X Comp) \cup BadTriples
 \* the immutable kinds refuse every mutation the same way: a handful of slices suffices there
@@ -219,6 +246,9 @@ Next ==
      \/ g = "contains" /\ PyType(k) = "str" /\ Emit(ContainsBadCase(k, n))
      \/ g = "contains" /\ PyType(k) = "bytes" /\ \E v \in SubNeedles(x, 7) : Emit(ContainsSubCase(k, n, v))
      \/ g = "contains" /\ PyType(k) = "bytes" /\ \E v \in SqSet(x) \cup {7, 1} : Emit(ContainsItemCase(k, n, v))
+     \/ g = "derive" /\ \E d \in Derivs, op \in ThenOps, a \in 0..n, b \in 0..n :
+          /\ DeriveOk(k, d, op) /\ a <= b /\ (d # "slice" => (a = 0 /\ b = n))
+          /\ Emit(DeriveCase(k, n, d, a, b, op))
      \* comparisons do not depend on the length: done once, at the root of length 0
      \/ g = "compare" /\ n = 0 /\ k = 6 /\ \E p \in CmpRanges, q \in CmpRanges, op \in CmpOps : Emit(CompareRangeCase(p, q, op))
      \/ g = "compare" /\ n = 0 /\ k <= 5 /\ \E s \in WordsOf(k), t \in WordsOf(k), op \in CmpOps : Emit(CompareCase(k, s, k, t, op))
